@@ -1739,6 +1739,12 @@ class SymExec:
             old = self.load(st, args[0][1], args[0][2])
             self.store_ptr(st, args[0], args[1])
             return old
+        if name.startswith("core::option::Option<") and name.endswith("::ok_or") and len(args) == 2 and args[0][0] == "agg":
+            # the Option is known on this path
+            if args[0][2] == "Some":
+                return ("agg", "core::result::Result", "Ok", 0, (("0", dict(args[0][4]).get("0")),))
+            if args[0][2] == "None":
+                return ("agg", "core::result::Result", "Err", 1, (("0", args[1]),))
         if name.startswith("core::option::Option<") and name.rsplit("::", 1)[-1] in ("is_some", "is_none"):
             a = args[0]
             if a[0] in ("ptr", "ref"):
